@@ -620,11 +620,18 @@ func qualifyKey(k, pkgPath string) string {
 var contractOverlay map[string][]byte
 
 func readContractFile(path string, pkgPath string, voc *Vocab) ([]*Contract, error) {
+	return readContractFileOv(path, pkgPath, voc, nil)
+}
+
+func readContractFileOv(path string, pkgPath string, voc *Vocab, overlay map[string][]byte) ([]*Contract, error) {
 	data, err := os.ReadFile(path)
 	if err != nil {
 		return nil, err
 	}
 	if ov, ok := contractOverlay[path]; ok {
+		data = ov
+	}
+	if ov, ok := overlay[path]; ok {
 		data = ov
 	}
 	var lines []string
